@@ -51,6 +51,7 @@ struct Conn {
 	uint64_t connect_seq = 0;
 	uint64_t opened_seq = 0, established_seq = 0, ended_seq = 0; // ended: FIN/RST visible or client close
 	std::string end_kind;       // "fin", "rst", "refused", "clientclose"
+	uint64_t noticed_seq = 0;   // when a call of the client first reported the end (recv 0 / ECONNRESET / ECONNREFUSED, send EPIPE, poll error bits)
 	// reassembly-buffer discipline (async reader)
 	const unsigned char *recv_base = nullptr;
 	bool discipline_ok = true;
